@@ -430,9 +430,63 @@ Proof. intros [|z zs]; [reflexivity|]. cbn [fold_left minZ]. apply imin_fold_som
 Lemma imax_fold_none : forall zs, fold_left imax_step zs None = maxZ zs.
 Proof. intros [|z zs]; [reflexivity|]. cbn [fold_left maxZ]. apply imax_fold_some. Qed.
 
+(** the double part of the min / max accumulators: a NaN is skipped; the first other double is
+    taken as it is, a later one when it is smaller (larger) by the IEEE [<] *)
+Definition fmin_step (o : option f64) (v : f64) : option f64 :=
+  if f_is_nan v then o else
+  match o with Some s => if fltb v s then Some v else o | None => Some v end.
+Definition fmax_step (o : option f64) (v : f64) : option f64 :=
+  if f_is_nan v then o else
+  match o with Some s => if fltb s v then Some v else o | None => Some v end.
+
+(** the double extremum of a list of doubles: that of its non-NaN elements, None when there is
+    none (the analogue of [minZ] / [maxZ]) *)
+Definition not_nan (f : f64) : bool := negb (f_is_nan f).
+Definition minF (fs : list f64) : option f64 :=
+  match filter not_nan fs with
+  | [] => None
+  | x :: r => Some (fold_left (fun acc v => if fltb v acc then v else acc) r x)
+  end.
+Definition maxF (fs : list f64) : option f64 :=
+  match filter not_nan fs with
+  | [] => None
+  | x :: r => Some (fold_left (fun acc v => if fltb acc v then v else acc) r x)
+  end.
+
+Lemma fmin_fold_some : forall fs s,
+  fold_left fmin_step fs (Some s) =
+  Some (fold_left (fun acc v => if fltb v acc then v else acc) (filter not_nan fs) s).
+Proof.
+  induction fs as [|v fs IH]; intro s; [reflexivity|].
+  cbn [fold_left filter]. unfold fmin_step at 2. unfold not_nan at 1.
+  destruct (f_is_nan v); cbn [negb]; [apply IH|].
+  cbn [fold_left]. destruct (fltb v s); apply IH.
+Qed.
+Lemma fmax_fold_some : forall fs s,
+  fold_left fmax_step fs (Some s) =
+  Some (fold_left (fun acc v => if fltb acc v then v else acc) (filter not_nan fs) s).
+Proof.
+  induction fs as [|v fs IH]; intro s; [reflexivity|].
+  cbn [fold_left filter]. unfold fmax_step at 2. unfold not_nan at 1.
+  destruct (f_is_nan v); cbn [negb]; [apply IH|].
+  cbn [fold_left]. destruct (fltb s v); apply IH.
+Qed.
+Lemma fmin_fold_none : forall fs, fold_left fmin_step fs None = minF fs.
+Proof.
+  unfold minF. induction fs as [|v fs IH]; [reflexivity|].
+  cbn [fold_left filter]. unfold fmin_step at 2. unfold not_nan at 1.
+  destruct (f_is_nan v); cbn [negb]; [exact IH|apply fmin_fold_some].
+Qed.
+Lemma fmax_fold_none : forall fs, fold_left fmax_step fs None = maxF fs.
+Proof.
+  unfold maxF. induction fs as [|v fs IH]; [reflexivity|].
+  cbn [fold_left filter]. unfold fmax_step at 2. unfold not_nan at 1.
+  destruct (f_is_nan v); cbn [negb]; [exact IH|apply fmax_fold_some].
+Qed.
+
 Lemma min_fold : forall e rows m mi,
   fold_left acc_step rows (AMin m mi e) =
-  AMin (fold_left (fun acc v => if fltb v acc then v else acc) (float_args e rows) m)
+  AMin (fold_left fmin_step (float_args e rows) m)
        (fold_left imin_step (int_args e rows) mi) e.
 Proof.
   intros e rows. unfold float_args, int_args.
@@ -441,12 +495,13 @@ Proof.
   destruct (exact_int_of (eval e d)) as [i|] eqn:Ei.
   - rewrite (exact_int_f64 _ _ _ Ei). cbn [app fold_left]. apply IH.
   - destruct (eval_f64 e d) as [v| | |]; cbn [app fold_left]; try apply IH.
-    destruct (fltb v m); apply IH.
+    unfold fmin_step at 2. destruct (f_is_nan v); [apply IH|].
+    destruct m as [s|]; [destruct (fltb v s)|]; apply IH.
 Qed.
 
 Lemma max_fold : forall e rows m mi,
   fold_left acc_step rows (AMax m mi e) =
-  AMax (fold_left (fun acc v => if fltb acc v then v else acc) (float_args e rows) m)
+  AMax (fold_left fmax_step (float_args e rows) m)
        (fold_left imax_step (int_args e rows) mi) e.
 Proof.
   intros e rows. unfold float_args, int_args.
@@ -455,26 +510,23 @@ Proof.
   destruct (exact_int_of (eval e d)) as [i|] eqn:Ei.
   - rewrite (exact_int_f64 _ _ _ Ei). cbn [app fold_left]. apply IH.
   - destruct (eval_f64 e d) as [v| | |]; cbn [app fold_left]; try apply IH.
-    destruct (fltb m v); apply IH.
+    unfold fmax_step at 2. destruct (f_is_nan v); [apply IH|].
+    destruct m as [s|]; [destruct (fltb s v)|]; apply IH.
 Qed.
 
 (** the min / max cell: the exact extremum of the integer arguments against the
     double extremum of the others ([minmax_emit]) *)
 Lemma min_emit : forall e rows,
   acc_emit (fold_left acc_step rows (acc_empty (FMin e))) =
-  Ok (minmax_emit true
-        (fold_left (fun acc v => if fltb v acc then v else acc) (float_args e rows) f_inf)
-        (minZ (int_args e rows))).
+  Ok (minmax_emit true (minF (float_args e rows)) (minZ (int_args e rows))).
 Proof.
-  intros e rows. cbn [acc_empty]. rewrite min_fold, imin_fold_none. reflexivity.
+  intros e rows. cbn [acc_empty]. rewrite min_fold, imin_fold_none, fmin_fold_none. reflexivity.
 Qed.
 Lemma max_emit : forall e rows,
   acc_emit (fold_left acc_step rows (acc_empty (FMax e))) =
-  Ok (minmax_emit false
-        (fold_left (fun acc v => if fltb acc v then v else acc) (float_args e rows) f_neg_inf)
-        (maxZ (int_args e rows))).
+  Ok (minmax_emit false (maxF (float_args e rows)) (maxZ (int_args e rows))).
 Proof.
-  intros e rows. cbn [acc_empty]. rewrite max_fold, imax_fold_none. reflexivity.
+  intros e rows. cbn [acc_empty]. rewrite max_fold, imax_fold_none, fmax_fold_none. reflexivity.
 Qed.
 
 (** a group without any numeric value reports None for min and max *)
